@@ -97,7 +97,26 @@ class XArr(_Sym):
             return list(range(n))[k]
         return [int(k) % n if -n <= int(k) < n else int(k)]
 
+    def _norm(self, k):
+        """`...` stands for as many full slices as the array has axes left"""
+        if k is Ellipsis:
+            k = (Ellipsis,)
+        if isinstance(k, tuple) and any(x is Ellipsis for x in k):
+            i = [j for j, x in enumerate(k) if x is Ellipsis]
+            if len(i) > 1:
+                raise IndexError("an index can only have a single ellipsis ('...')")
+            fill = self.ndim - (len(k) - 1)
+            if fill < 0:
+                raise IndexError("too many indices for array")
+            k = k[:i[0]] + (slice(None),) * fill + k[i[0] + 1:]
+        if isinstance(k, tuple) and self.ndim == 1:
+            if len(k) != 1:
+                raise IndexError("too many indices for array")
+            k = k[0]
+        return k
+
     def __getitem__(self, k):
+        k = self._norm(k)
         if self.ndim == 1:
             if isinstance(k, slice):
                 return XArr([self._c[i] for i in self._idx(k, len(self._c))], _cells=True)
@@ -115,6 +134,7 @@ class XArr(_Sym):
         return XArr(sub, _cells=True)
 
     def __setitem__(self, k, v):
+        k = self._norm(k)
         if self.ndim == 1:
             idx = self._idx(k, len(self._c))
             vals = v.d if isinstance(v, XArr) else [v] * len(idx)
